@@ -702,8 +702,11 @@ def run(ctx):
     checked = 0
     for it in range(ctx.n(10, 60)):
         tk = TARGET_KINDS[it % len(TARGET_KINDS)]
-        md = [0, 1, 1][it % 3] if not ctx.thorough else [0, 1, 1, 2][it % 4]
-        spec = gen_spec(rng, tk, d=rng.randint(1, 2))
+        md = [0, 1, 1][it % 3]
+        deep = ctx.thorough and it % 12 == 5          # depth 2: up to 15 sources x 2^10 scripted runs, a minute each
+        if deep:
+            md = 2
+        spec = gen_spec(rng, tk, d=(1 if deep else rng.randint(1, 2)))
         if tk == "quartic":
             md = min(md, 1)
         eps = rng.choice([0.25, 0.5, 2.0, 0.125, 4.0])
